@@ -77,6 +77,20 @@ PROPS["C02"] = {
     "technique": "deterministic simulation: seeded baton scheduler + clock jumps; snapshot-stability model and seam monitor",
 }
 
+PROPS["C08"] = {
+    "harness": "repl", "level": "exploration", "per_proc": 60, "proc_timeout": 900,
+    "quick": {"runs": 2500, "budget_s": 300},
+    "thorough": {"runs": 120000, "budget_s": 1700, "shrink_runs": 200, "shrink_timeout": 600},
+    "rule": "Each run: a leader node and a follower node, each a real WriteAheadLogManager on its own directory; the leader's partition replicates through its real local and remote replicators, the follower answers through the real storage RPC ReplicaHandler; unary calls and the bidirectional stream are simulated (1 ms latency per hop). 4-17 operations: leader appends of unique messages, waits, follower restart (clean / process death / death + log directory lost), follower offline/online with (duplicate) notifications, leader Sync+GC, leader restart (clean / death / death + an older image of its log restored = lost tail); in addition the tape breaks streams before delivery, after the request was delivered (stale delivery by the dead stream's handler), fails stream creation and unary calls before/after they took effect. After the last fault: settle, then two more appends must reach the follower at the leader's positions within 120 simulated seconds.",
+    "fault_kinds": ["break-before-delivery", "break-after-request", "stale-delivery", "stream-open-fail", "unary-fail-before", "unary-fail-after", "follower-restart-0", "follower-restart-1", "follower-log-lost", "follower-offline", "duplicate-online-notification", "leader-gc", "leader-restart-0", "leader-restart-1", "leader-tail-lost"],
+    "real": ["replica (wal manager, wal, partition, local replicator, remote replicator incl. handshake)", "app/storage/rpc ReplicaHandler", "pkg/queue (fan-out queue, consumer groups, pages on tmpfs)"],
+    "stub": ["tsdb.Engine / Shard / DataFamily (interfaces; replication of a log never touches tsdb data)", "coordinator/storage StateManager (live-node table + notifications driven by the plan)", "rpc.ClientStreamFactory and the gRPC streams (simnet: ordered, reliable until broken)"],
+    "assumptions": COMMON_ASSUME + ["gRPC semantics modelled: a stream is ordered and reliable until it breaks; unary calls either fail before or after taking effect", "positions destroyed by a leader tail loss are exempt from byte comparison until the handshake re-aligned the indexes", "compile-time knobs: queue page size 512 bytes, 8 index entries per page"],
+    "design_ref": "5/C08",
+    "level_text": "Seeded exploration of fault sequences and schedules on two real nodes' replication stacks over a simulated transport; invariants after every operation and at every scheduling step, bounded catch-up after faults stop.",
+    "technique": "deterministic simulation: simulated transport with stream/unary faults, node death and log loss; prefix/bytes agreement, ack <= follower high-water mark monitor, bounded liveness in simulated time",
+}
+
 NOT_APPLICABLE = {
     "C13": "pure arithmetic on (timestamp, interval): no schedule, clock, fault or crash point in the quantifier for a simulator to own; its code runs inside the C04/C07/C11 harnesses",
     "C14": "encode/decode are pure functions; pooled-object reuse is owned by the simulator only as a nondeterminism source of other harnesses, not as a fault of this property",
